@@ -382,6 +382,10 @@ def run_check(prop, tier, seed, replay_file=None):
                 else:
                     new.append((eid, clause, feats))
         os.makedirs(REPLAYS, exist_ok=True)
+        if not replay_file:
+            for f in os.listdir(REPLAYS):       # replays of earlier runs of this property are stale
+                if f.startswith(prop + "-"):
+                    os.unlink(os.path.join(REPLAYS, f))
         for fid, eids in sorted(known.items()):
             fd = next(f for f in findings if f["id"] == fid)
             print("KNOWN-FINDING: property=%s %s: %s (%d events this run)" % (prop, fid, fd["what"], len(eids)))
